@@ -479,6 +479,30 @@ pub fn generate(r: &mut Rng, max_ops: usize) -> BScenario {
     let ticks = [0u64, 1, 1_000, 1_000_000_000, 3_600_000_000_000];
     let mut since_build = 0;
     while ops.len() < n {
+        // focus cycle: set the focus option to another value, let time pass, build - so that one
+        // key runs through several values with a build after each (value pairs where one
+        // rendering is a prefix of the other, e.g. Public / PublicSuper, are only told apart by
+        // an exact comparison of the recorded settings)
+        if r.chance(30) {
+            let mut did = false;
+            if let (Some(f), true) = (focus_p, r.chance(60)) {
+                let (k, vals) = POPT_POOL[f];
+                ops.push(Op::SetParserOpt(k.to_string(), Some(r.pick(vals).to_string())));
+                did = true;
+            } else if let Some(f) = focus_l {
+                let (k, vals) = LOPT_POOL[f];
+                ops.push(Op::SetLexerOpt(k.to_string(), Some(r.pick(vals).to_string())));
+                did = true;
+            }
+            if did {
+                if r.chance(75) {
+                    ops.push(Op::Tick(*r.pick(&ticks[1..])));
+                }
+                ops.push(Op::Build(None));
+                since_build = 0;
+                continue;
+            }
+        }
         let roll = r.below(100);
         let op = match roll {
             0..=13 => {
